@@ -185,7 +185,15 @@ func (g *c07Gen) transformProgram() jast.Node {
 	r := g.r
 	t := g.transform()
 	var subject jast.Node
-	switch r.Intn(8) {
+	constructed := false
+	switch r.Intn(9) {
+	case 8:
+		// a value built by the program: it holds what JSON cannot carry (the null
+		// literal, a function) and the copy must still be equal to it
+		g.tags["subject:constructed-with-null-and-function"] = true
+		constructed = true
+		subject = obj("k", &jast.Str{V: "x"}, "v", &jast.Num{V: 2}, "n", &jast.Null{}, "g", &jast.Lambda{Params: []string{"x"}, Body: &jast.Bin{Op: "*", L: &jast.Var{Name: "x"}, R: &jast.Num{V: 3}}},
+			"b", obj("n", &jast.Null{}, "k", &jast.Str{V: "y"}))
 	case 0:
 		subject = &jast.Var{Name: ""}
 	case 1:
@@ -228,6 +236,14 @@ func (g *c07Gen) transformProgram() jast.Node {
 	}
 	// report the transform result together with what the original looks like afterwards
 	res := &jast.Array{Items: []jast.Node{&jast.Array{Items: []jast.Node{e}}, &jast.Array{Items: []jast.Node{&jast.Var{Name: "$"}}}}}
+	if constructed {
+		// the untouched members of the copy: null is still null, the function still callable
+		res.Items = append(res.Items, &jast.Array{Items: []jast.Node{
+			call("exists", &jast.Path{Steps: []jast.Node{&jast.Block{Exprs: []jast.Node{e}}, &jast.Name{V: "n"}}}),
+			&jast.Bin{Op: "=", L: &jast.Path{Steps: []jast.Node{&jast.Block{Exprs: []jast.Node{e}}, &jast.Name{V: "b"}, &jast.Name{V: "n"}}}, R: &jast.Null{}},
+			&jast.Path{Steps: []jast.Node{&jast.Block{Exprs: []jast.Node{e}}, &jast.Call{Fn: &jast.Name{V: "g"}, Args: []jast.Node{&jast.Num{V: 2}}}}},
+		}})
+	}
 	if g.tags["update:function-member"] {
 		// ... and call the inserted function on every object of the result
 		res.Items = append(res.Items, &jast.Array{Items: []jast.Node{&jast.Path{Steps: []jast.Node{&jast.Block{Exprs: []jast.Node{e}},
